@@ -2,6 +2,7 @@ package props
 
 import (
 	"fmt"
+	"go/constant"
 	"go/token"
 	"strings"
 
@@ -18,6 +19,8 @@ func init() {
 		Assumptions: []string{"timestamps are normalised (0 <= nanos < 1e9)"},
 		Run:         runC18,
 		Controls: []Control{
+			{Name: "revert-F67-negative-tail-dropped", File: "pkg/trait/electricpb/segmentpb/sum.go", Old: "last.Length == nil && last.Magnitude == 0", New: "last.Length == nil && last.Magnitude <= 0", Expect: "R18.9"},
+			{Name: "duration-positive-by-nanos", File: "pkg/trait/electricpb/segmentpb/magnitude.go", Old: "\treturn d.AsDuration() > 0\n", New: "\treturn d.GetNanos() > 0\n", Expect: "R18.8"},
 			{Name: "revert-F48-empty-period-intersects", File: "pkg/time/period.go", Old: "\tif p1lower.CompareTo(p1upper) >= 0 || p2lower.CompareTo(p2upper) >= 0 {\n\t\treturn false\n\t}\n", New: "", Expect: "R18.3"},
 			{Name: "only-first-period-checked-for-emptiness", File: "pkg/time/period.go", Old: "\tif p1lower.CompareTo(p1upper) >= 0 || p2lower.CompareTo(p2upper) >= 0 {", New: "\tif p1lower.CompareTo(p1upper) >= 0 {", Expect: "R18.3"},
 			{Name: "activeat-turns-away-zero", File: "pkg/trait/electricpb/segmentpb/active.go", Old: "\tif d < 0 {\n\t\treturn d, 0\n\t}", New: "\tif d <= 0 {\n\t\treturn d, 0\n\t}", Expect: "R18.7"},
@@ -45,6 +48,10 @@ func runC18(c *an.Ctx) {
 	r186(c)
 	r187(c)
 	c.Min("R18.6", 5)
+	r189(c, "R18.9")
+	c.Min("R18.9", 2)
+	r188whole(c, "R18.8")
+	c.Min("R18.8", 1)
 	c.Min("R18.1", 2)
 	c.Min("R18.2", 10)
 	c.Min("R18.3", 4)
@@ -778,4 +785,118 @@ func r187(c *an.Ctx) {
 	// a lower bound above 0 means d == 0 never reaches the scan
 	c.Check(!okLo || lo <= 0, rule, name+"|offset zero is scanned like any other", scan.Pos(), "the scan is reachable with d == 0",
 		fmt.Sprintf("the scan over the segments is only reached with d >= %d: at offset 0 the early return answers without stepping over leading zero-length segments, so ActiveAt(0)/MagnitudeAt(0) name a segment that occupies no time - the list is no longer read as the step function it denotes", lo))
+}
+
+// r188whole: a duration or timestamp is never judged by one of its two components. Seconds and Nanos together are the
+// value; code that reads only one of them for a given message (`d.GetNanos() > 0` for "is positive") is wrong for
+// every value whose other component carries the information - a whole number of seconds has Nanos == 0, so such
+// segments would count as empty and Max/MaxAfter miss the real maximum of the step function. Every function of the
+// time and electric packages that reads a component of a Duration/Timestamp reads both of that same message.
+func r188whole(c *an.Ctx, rule string) {
+	n := 0
+	for _, pre := range []string{"pkg/time", "pkg/trait/electricpb"} {
+		for _, fn := range c.Prog.FuncsIn(pre) {
+			if c.Prog.IsGenerated(fn.Pos()) || strings.HasSuffix(c.Prog.RelFile(fn.Pos()), "_test.go") {
+				continue
+			}
+			reads := map[ssa.Value]map[string]bool{}
+			var first = map[ssa.Value]ssa.Instruction{}
+			note := func(base ssa.Value, comp string, at ssa.Instruction) {
+				for _, b := range an.Sources(base) {
+					if reads[b] == nil {
+						reads[b] = map[string]bool{}
+						first[b] = at
+					}
+					reads[b][comp] = true
+				}
+			}
+			an.Instrs(fn, func(in ssa.Instruction) {
+				switch x := in.(type) {
+				case *ssa.Call:
+					cn := an.CalleeName(x)
+					for _, t := range []string{"durationpb.Duration)", "timestamppb.Timestamp)"} {
+						if strings.HasSuffix(cn, t+".GetSeconds") {
+							note(x.Call.Args[0], "Seconds", in)
+						}
+						if strings.HasSuffix(cn, t+".GetNanos") {
+							note(x.Call.Args[0], "Nanos", in)
+						}
+					}
+				case *ssa.UnOp:
+					if x.Op != token.MUL {
+						return
+					}
+					if fa, ok := x.X.(*ssa.FieldAddr); ok {
+						if _, sn, f, isF := an.FieldOf(fa); isF && (strings.HasSuffix(sn, "durationpb.Duration") || strings.HasSuffix(sn, "timestamppb.Timestamp")) && (f == "Seconds" || f == "Nanos") {
+							note(fa.X, f, in)
+						}
+					}
+				}
+			})
+			if len(reads) == 0 {
+				continue
+			}
+			n++
+			bad, where := "", fn.Pos()
+			for b, comps := range reads {
+				if len(comps) == 1 {
+					for k := range comps {
+						bad = k
+					}
+					where = first[b].Pos()
+				}
+			}
+			c.Check(bad == "", rule, an.FuncName(fn)+"|a duration or timestamp is read as a whole", where, "both components of each message are read",
+				"only the "+bad+" component of a duration/timestamp is read here: the value is judged without its other half (a whole number of seconds has Nanos == 0)")
+		}
+	}
+	c.Count("component_readers", n)
+}
+
+// r189: a segment contributes nothing to the step function exactly when its magnitude IS zero. Sum drops the trailing
+// open-ended segment when it has become empty, shift drops a leading one; a test `Magnitude <= 0` there also drops a
+// negative open-ended level, so the sum of {2 for 5s, then -3 forever} ends after 5s and is no longer the pointwise
+// sum. Every comparison of a segment's magnitude with the constant 0 in the segment package is an equality.
+func r189(c *an.Ctx, rule string) {
+	n := 0
+	for _, fn := range c.Prog.FuncsIn("pkg/trait/electricpb/segmentpb") {
+		if c.Prog.IsGenerated(fn.Pos()) || strings.HasSuffix(c.Prog.RelFile(fn.Pos()), "_test.go") {
+			continue
+		}
+		ord := 0
+		an.Instrs(fn, func(in ssa.Instruction) {
+			bo, ok := in.(*ssa.BinOp)
+			if !ok {
+				return
+			}
+			isMag := func(v ssa.Value) bool {
+				for _, s := range an.Sources(v) {
+					if u, isU := s.(*ssa.UnOp); isU && u.Op == token.MUL {
+						if _, sn, f, isF := an.FieldOf(u.X); isF && f == "Magnitude" && strings.HasSuffix(sn, "ElectricMode_Segment") {
+							return true
+						}
+					}
+				}
+				return false
+			}
+			isZero := func(v ssa.Value) bool {
+				k, isC := v.(*ssa.Const)
+				return isC && k.Value != nil && constant.Sign(k.Value) == 0 && (k.Value.Kind() == constant.Float || k.Value.Kind() == constant.Int)
+			}
+			if !((isMag(bo.X) && isZero(bo.Y)) || (isMag(bo.Y) && isZero(bo.X))) {
+				return
+			}
+			switch bo.Op {
+			case token.EQL, token.NEQ, token.LSS, token.LEQ, token.GTR, token.GEQ:
+			default:
+				return
+			}
+			ord++
+			n++
+			c.SawFunc(an.FuncName(fn))
+			c.Check(bo.Op == token.EQL || bo.Op == token.NEQ, rule, fmt.Sprintf("%s|zero test #%d of a magnitude is an equality", an.FuncName(fn), ord), bo.Pos(), "== 0 / != 0",
+				"a segment's magnitude is compared with 0 by an inequality: a negative level is treated like an empty one, so an open-ended negative segment is dropped and the result is not the pointwise sum / the translated function")
+		})
+	}
+	c.Count("magnitude_zero_tests", n)
 }
